@@ -48,4 +48,105 @@ theorem liftXSub_val_of_cofactor_one (K : CurveOk p C) (h34 : p % 4 = 3)
     rw [dif_pos hin]
     rfl
 
+
+/-! ## transfer to the raw `Btc.EC.ops C` under the single named assumption `hcof` (cofactor one)
+
+`OpsHom o₁ o₂ f`: `f` commutes with every operation of a `GroupOps`.  Any scheme-level function written over
+`GroupOps` (a composition of these operations) therefore commutes with `f`: a run over `opsSub K` (where the
+`Lawful` theorems live) and the run the drivers execute over `Btc.EC.ops C` return the same integers.  For
+`f = Subtype.val : SubPt p C → Point` this holds as soon as `lift_x` agrees, i.e. under cofactor one and `Δ ≠ 0`
+(`opsSub_hom`); and under cofactor one every reduced valid pair IS in the carrier (`inSub_of_cofactor_one`), so a
+statement quantified over `SubPt` is a statement about every key the raw arithmetic can be handed. -/
+
+/-- `f` commutes with every operation -/
+structure OpsHom {α β : Type} (o₁ : GroupOps α) (o₂ : GroupOps β) (f : α → β) : Prop where
+  n : o₁.n = o₂.n
+  p : o₁.p = o₂.p
+  zero : f o₁.zero = o₂.zero
+  gen : f o₁.gen = o₂.gen
+  add : ∀ P Q, f (o₁.add P Q) = o₂.add (f P) (f Q)
+  neg : ∀ P, f (o₁.neg P) = o₂.neg (f P)
+  mul : ∀ (m : ℤ) P, f (o₁.mul m P) = o₂.mul m (f P)
+  isZero : ∀ P, o₁.isZero P = o₂.isZero (f P)
+  x : ∀ P, o₁.x P = o₂.x (f P)
+  y : ∀ P, o₁.y P = o₂.y (f P)
+  eq : ∀ P Q, o₁.eq P Q = o₂.eq (f P) (f Q)
+  liftX : ∀ x, (o₁.liftX x).map f = o₂.liftX x
+
+namespace OpsHom
+variable {α β : Type} {o₁ : GroupOps α} {o₂ : GroupOps β} {f : α → β} (h : OpsHom o₁ o₂ f)
+include h
+
+theorem sub (P Q : α) : f (o₁.sub P Q) = o₂.sub (f P) (f Q) := by
+  simp only [GroupOps.sub, h.add, h.neg]
+
+theorem dmul (u : ℤ) (H : α) (v : ℤ) (Q : α) : f (o₁.dmul u H v Q) = o₂.dmul u (f H) v (f Q) := by
+  simp only [GroupOps.dmul, h.add, h.mul]
+
+theorem hasEvenY (P : α) : o₁.hasEvenY P = o₂.hasEvenY (f P) := by
+  simp only [GroupOps.hasEvenY, h.y]
+
+theorem liftX_some {x : ℤ} {P : α} (hl : o₁.liftX x = some P) : o₂.liftX x = some (f P) := by
+  rw [← h.liftX x, hl]; rfl
+
+theorem liftX_none {x : ℤ} (hl : o₁.liftX x = none) : o₂.liftX x = none := by
+  rw [← h.liftX x, hl]; rfl
+
+theorem liftX_of_some {x : ℤ} {Q : β} (hl : o₂.liftX x = some Q) : ∃ P, o₁.liftX x = some P ∧ f P = Q := by
+  rw [← h.liftX x] at hl
+  cases hP : o₁.liftX x with
+  | none => rw [hP] at hl; simp at hl
+  | some P => rw [hP] at hl; exact ⟨P, rfl, by simpa using hl⟩
+end OpsHom
+
+/-- **cofactor one ⇒ the lawful carrier and the raw arithmetic run alike**: `Subtype.val` commutes with every operation
+of `opsSub K` / `Btc.EC.ops C`, `lift_x` included -/
+theorem opsSub_hom (K : CurveOk p C) (h34 : p % 4 = 3) (hcof : ∀ g : Pt p C.toCurveGroup, C.n • g = 0)
+    (hΔ : (curveOf p C.toCurveGroup).toAffine.Δ ≠ 0) :
+    OpsHom (opsSub K) (EC.ops C) (Subtype.val : SubPt p C → Point) where
+  n := rfl
+  p := rfl
+  zero := rfl
+  gen := rfl
+  add _ _ := rfl
+  neg _ := rfl
+  mul _ _ := rfl
+  isZero _ := rfl
+  x _ := rfl
+  y _ := rfl
+  eq _ _ := rfl
+  liftX := liftXSub_val_of_cofactor_one K h34 hcof hΔ
+
+/-- cofactor one ⇒ every reduced valid pair (every on-curve key, infinity included) is in the carrier -/
+theorem inSub_of_cofactor_one (hcof : ∀ g : Pt p C.toCurveGroup, C.n • g = 0) {P : Point}
+    (hv : AValid p C.toCurveGroup P) (hr : RedA C.toCurveGroup P) : InSub p C P := ⟨hv, hr, hcof _⟩
+
+/-- … so a raw pair lifts to the carrier: statements over `SubPt` cover every admissible raw operand -/
+theorem exists_subPt_of_cofactor_one (hcof : ∀ g : Pt p C.toCurveGroup, C.n • g = 0) (P : Point)
+    (hv : AValid p C.toCurveGroup P) (hr : RedA C.toCurveGroup P) : ∃ S : SubPt p C, S.1 = P :=
+  ⟨⟨P, inSub_of_cofactor_one hcof hv hr⟩, rfl⟩
+
+/-- the discriminant of a curve with `a = 0`: non-zero as soon as `p ∤ 2·3·b` (secp256k1: `b = 7`) -/
+theorem delta_ne_zero_of_a_zero (ha : C.a = 0) (hb : ((2 * 3 * C.b : ℤ) : ZMod p) ≠ 0) :
+    (curveOf p C.toCurveGroup).toAffine.Δ ≠ 0 := by
+  have hΔ : (curveOf p C.toCurveGroup).toAffine.Δ = -(2 * 3 * (C.b : ZMod p)) ^ 2 * (2 * 2 * 3) := by
+    simp only [curveOf, swc, WeierstrassCurve.Δ, WeierstrassCurve.b₂, WeierstrassCurve.b₄, WeierstrassCurve.b₆,
+      WeierstrassCurve.b₈, ha, Int.cast_zero]
+    ring
+  rw [hΔ]
+  have h1 : (2 * 3 * (C.b : ZMod p)) ≠ 0 := by
+    have h := hb
+    push_cast at h
+    have e : (2 : ZMod p) * 3 * (C.b : ZMod p) = 6 * (C.b : ZMod p) := by ring
+    rw [e]; exact h
+  have h2 : ((2 : ZMod p) * 2 * 3) ≠ 0 := by
+    intro h0
+    apply h1
+    have : (2 : ZMod p) * 3 = 0 := by
+      rcases mul_eq_zero.mp h0 with h | h
+      · rcases mul_eq_zero.mp h with h | h <;> simp [h]
+      · simp [h]
+    rw [this]; ring
+  exact mul_ne_zero (neg_ne_zero.mpr (pow_ne_zero 2 h1)) h2
+
 end Btc.C01
